@@ -711,6 +711,11 @@ HandleFileUploadRequest(rfbClientPtr cl, rfbTightClientPtr rtcp)
 		return;
 	}
 
+	/* a new upload request replaces an unfinished one: finish that one (close, unlink its
+	   converted name) before fName is overwritten with bytes from the client - otherwise the
+	   close hook would unlink whatever unconverted name a short read leaves behind */
+	CloseUndoneFileUpload(cl, rtcp);
+
 	if((n = rfbReadExact(cl, rtcp->rcft.rcfu.fName, msg.fupr.fNameSize)) <= 0) {
 		
 		if (n < 0)
